@@ -324,10 +324,9 @@ func (b *builder) chain() (desync.Store, J, bool) {
 
 func classGet(c *desync.Chunk, err error, id int) string {
 	if err != nil {
-		var mi desync.ChunkMissing
 		var in desync.ChunkInvalid
 		switch {
-		case errors.As(err, &mi):
+		case isMissing(err):
 			return "missing"
 		case errors.As(err, &in):
 			return "invalid"
@@ -358,6 +357,13 @@ func healthyList(ms []*mem) []bool {
 		out = append(out, m.healthy)
 	}
 	return out
+}
+
+// isMissing: "missing" is recognised the way desync's own consumers do it (router, cache, failover group, HTTP handler,
+// protocol server): by the error's dynamic type, not through a chain of wrapped errors
+func isMissing(err error) bool {
+	_, ok := err.(desync.ChunkMissing)
+	return ok
 }
 
 func main() {
